@@ -17,6 +17,11 @@ def run(ctx):
         elif i % 3 != 0:      # two thirds of the histories draw their containers per call (arrays in either order, frames, lists, int dtypes, views)
             C.choose(rng, p, C.BATCH_KINDS + C.LOOSE_BATCH_KINDS)
         ts.append(D.run(p, D.history(rng, p, nb), seed=rng.randrange(10 ** 6), frame=rng.random() < 0.6))
+    for i in range(24 if q else 200):
+        t = D.grazing(rng)
+        if t:
+            ts.append(t)
+    ctx.parts["grazing histories"] = sum(1 for t in ts if "graze" in t)
     ctx.validate("HDM", ts, "HDDDM / CDBD histories on integer data", sabotage=D.sabotage,
                  replay=lambda i: {"params": ts[i]["params"], "script": ts[i]["script"], "seed": ts[i]["seed"], "frame": ts[i]["frame"]},
                  nontrivial=lambda t: sum(1 for e in t["ev"] if e["state"] == "drift") >= 2)
